@@ -272,6 +272,9 @@ func randGen32(r *rand.Rand, keys []uint64) iset {
 		if spreadKeys >= 1000 { // chunk counts around the multiples of 1024 (the offset header is then a multiple of 4096 bytes)
 			for {
 				n = pick(r, []int{1023, 1024, 1025, 2047, 2048, 3072, 4096})
+				if spreadKeys >= 20000 { // headers beyond 64 KiB
+					n = pick(r, []int{16383, 16384, 16385, 20000})
+				}
 				if n <= spreadKeys {
 					break
 				}
